@@ -390,7 +390,11 @@ def r_exitcode(e, R):
             "the terminating signal of a worker is not reported as a negative exit code", e.loc(poll, poll.node))
     R.check(okx, "R-EXITCODE", "poll: an exited worker gets exitcode = exit status", poll.short, "self.returncode = os.WEXITSTATUS(sts)",
             "the exit status of a worker is not reported", e.loc(poll, poll.node))
-    pidt = [t for t in g.nodes if t.kind == "test" and isinstance(t.ast, ast.Compare) and norm(t.ast) in ("pid == self.pid", "self.pid == pid")]
+    # the local bound to waitpid's first result
+    wpid = {n.targets[0].elts[0].id for n in func_nodes(poll) if isinstance(n, ast.Assign) and isinstance(n.targets[0], ast.Tuple) and n.targets[0].elts
+            and isinstance(n.targets[0].elts[0], ast.Name) and isinstance(n.value, ast.Call) and norm(n.value.func) == "os.waitpid"}
+    pidt = [t for t in g.nodes if t.kind == "test" and isinstance(t.ast, ast.Compare) and len(t.ast.ops) == 1 and isinstance(t.ast.ops[0], ast.Eq)
+            and {norm(t.ast.left), norm(t.ast.comparators[0])} in [{w, f"{poll.params[0]}.pid"} for w in wpid]]
     R.check(bool(pidt) and all(any(g.on_branch(n, t, "T") for t in pidt) for n in stores), "R-EXITCODE", "poll: the status is recorded only when waitpid reported this child",
             poll.short, "if pid == self.pid", "WNOHANG's (0, 0) is interpreted as an exit status: a live worker is reported dead with code 0", e.loc(poll, poll.node))
     rets = [n for n in g.nodes if n.kind == "stmt" and isinstance(n.ast, ast.Return)]
